@@ -57,14 +57,15 @@ PROPS["C15"] = {
 }
 
 PROPS["C06"] = {
-    "level_text": "Theorems: the Combine fold equals last-matching-rule semantics for EVERY option list / pattern semantics / name; prefix matching is the '/'-boundary relation — proved also of prefixFilter.Filter as REGENERATED from git/ref_filter.go (checked index expression, short-circuit; never panics); @REFGROUP is group membership; the regenerated option table pairs --X/--no-X with the documented patterns. Correspondence: real RefGroupBuilder + pflag parsing + Finish + Categorize in-process vs model vs spec on generated configs x option sequences x reference sets; and the real binary end to end (e2e: selection options and ROOTs on generated repositories, the census must be the one over the specified selection). `Pins.Filter` (REGENERATED statements of git/ref_filter.go's ten combinator methods): `combine_shapes`, `evaluator_shapes`, `regexp_anchored_prefix_empty` — the filter algebra the model mirrors, and the `^(?:…)$` anchoring. `default_from_root_arguments` (regenerated statements): Finish(len(flags.Args()) == 0) turns a still-nil top-level filter into all / no references.",
+    "level_text": "Theorems: the Combine fold equals last-matching-rule semantics for EVERY option list / pattern semantics / name; prefix matching is the '/'-boundary relation — proved also of prefixFilter.Filter as REGENERATED from git/ref_filter.go (checked index expression, short-circuit; never panics); @REFGROUP is group membership; the regenerated option table pairs --X/--no-X with the documented patterns. Correspondence: real RefGroupBuilder + pflag parsing + Finish + Categorize in-process vs model vs spec on generated configs x option sequences x reference sets; and the real binary end to end (e2e: selection options and ROOTs on generated repositories, the census must be the one over the specified selection). `Pins.Filter` (REGENERATED statements of git/ref_filter.go's ten combinator methods): `combine_shapes`, `evaluator_shapes`, `regexp_anchored_prefix_empty` — the filter algebra the model mirrors, and the `^(?:…)$` anchoring. `default_from_root_arguments` (regenerated statements): Finish(len(flags.Args()) == 0) turns a still-nil top-level filter into all / no references. **Regular expressions**: `Spec/Regex` DEFINES what it means for an expression to match the entire name (`FullMatch`, a denotation with context-sensitive `^`/`$`) and what `MatchString` does (`Search`); `regexp_entire_name`: the executable matcher (Brzozowski derivatives with anchors) decides `FullMatch` for every expression and name; `regexp_anchoring_selects_full_matches`: searching for `^(?:r)$` succeeds iff `r` matches the entire name; `naive_anchoring_differs` (the F1 witness). The `regex` engine judges the real git.RegexpFilter by that matcher (Go's regexp is the implementation there, not the oracle) and checks Go's oracle bits used by `refs` against it.",
     "level_note": "Trusted: Lean kernel; Go's regexp (full-match oracle computed independently of git-sizer); pflag's in-order Set calls (exercised, not modelled); model tied to internal/refopts and git/ref_filter.go by differential testing.",
     "technique": "Lean 4 proof (fold induction) + regenerated option table + differential correspondence",
     "modules": ["GitSizer.Props.C06", "GitSizer.Props.Pins.Filter"],
     "engines": [{"name": "refs", "quick": 12000, "thorough": 1200000, "per_shard": 3000},
-                {"name": "e2e", "quick": 160, "thorough": 8000, "per_shard": 20}],
-    "rule": "e2e: the real binary with generated selection options and ROOTs on generated repositories, census judged over the set the specification selects; refs: refgroup configs (nesting, implicit parents, augmented built-ins, odd symbols) x option sequences of length 0-4 (prefixes cut anywhere, regexps with alternation/anchors/classes, @groups, boolean forms, deprecated spellings) x 3-10 reference names x with/without ROOT; one case in six exercises error branches; non-trivial = the configuration and options were accepted.",
-    "assumptions": ["regular-expression semantics = Go regexp on ^(?:p)$"],
+                {"name": "e2e", "quick": 160, "thorough": 8000, "per_shard": 20},
+                {"name": "regex", "quick": 8000, "thorough": 800000, "per_shard": 2000}],
+    "rule": "regex: patterns from the pools, a pool of syntax edge cases and a grammar over real reference names (components replaced by classes, alternations, optional parts, counted repetitions, anchors in odd places, (?i)) x 4-12 names (real names cut, extended, upper-cased, with newline / non-ASCII bytes; short strings over the patterns' own alphabet); non-trivial = the pattern is inside the fragment the Lean reader accepts; e2e: the real binary with generated selection options and ROOTs on generated repositories, census judged over the set the specification selects; refs: refgroup configs (nesting, implicit parents, augmented built-ins, odd symbols) x option sequences of length 0-4 (prefixes cut anywhere, regexps with alternation/anchors/classes, @groups, boolean forms, deprecated spellings) x 3-10 reference names x with/without ROOT; one case in six exercises error branches; non-trivial = the configuration and options were accepted.",
+    "assumptions": ["regular-expression semantics = Go regexp on ^(?:p)$; for the fragment read by Model/Regex.parse (no named groups, inline flags other than a leading (?i), \\b \\A \\z \\p, POSIX classes, non-ASCII) that assumption is itself checked against the Lean matcher on every regex case"],
 }
 PROPS["C07"] = {
     "level_text": "Theorems: collectSymbols returns exactly the declared membership (own rules and all ancestors' rules; rule-less group = union of subgroups; Other bucket iff no subgroup matched) for EVERY forest (mutual induction over the rose tree); untraversed references get only 'ignored'; Categorize = specification. Correspondence as for C06 plus Groups() order and names; rendering of deep hierarchies is checked by the output engine (C11/C19). `Pins.Group` (REGENERATED statements of refGroup.collectSymbols): `collect_branches`, `pinned`.",
